@@ -238,7 +238,18 @@ def line_faults(rng: Rng, lines: List[str]) -> Tuple[List[str], Set[int], List[D
     out = list(lines)
     damaged: Set[int] = set()
     plan = []
-    for j in range(rng.randint(1, 3)):
+    many = rng.sub('many').chance(0.15)
+    if many:
+        # a badly damaged file: ten to thirty junk / mangled lines spread between the good ones
+        k = rng.sub('many-k').randint(10, 30)
+        for j in range(k):
+            r = rng.sub('m').sub(j)
+            i = r.below(len(out) + 1)
+            junk = r.choice(['', 'x', '1 2 3', 'a py:class', 'b py:class one two', 'name', '\t', 'c py:function 1', ' leading'])
+            out.insert(i, junk)
+            damaged = {d + 1 if d >= i else d for d in damaged} | {i}
+        plan.append({'kind': 'inv.many_bad', 'count': k})
+    for j in range(0 if many else rng.randint(1, 3)):
         r = rng.sub(j)
         kind = r.weighted([('inv.line_mangle', 6), ('inv.line_dup', 1), ('inv.line_reorder', 1), ('inv.nonpy', 1)])
         if not out:
